@@ -66,7 +66,7 @@ var runners = map[string]core.Runner{
 	"C08":     c08.Runner,
 	"C09":     c09.Runner,
 	"C10":     c10.Runner,
-	"C11":     c11.Runner,
+	"C11":     withStage(c11.Runner, c18.RsimStage),
 	"C12":     withStage(c11.Runner, c08dhcp.FrameStage),
 	"C13":     c13.Runner,
 	"C18":     c18.Runner,
